@@ -221,11 +221,23 @@ class SetMembersMixin:
                 value.parent = self  # type: ignore[assignment]
             # Re-target aliases only once the new member is attached:
             # its path (hence the aliases' target path) is not known before.
-            for alias in aliases_to_update:
+            # Skip stale entries: aliases that do not reach the replaced member anymore
+            # (re-targeted since, directly or through the alias they point at).
+            # This is decided for all of them before any is re-targeted.
+            def _reaches_member(alias: Alias) -> bool:
+                reached = alias._target
+                seen = {id(alias)}  # Chains of resolved aliases can contain cycles.
+                while reached is not None and reached.is_alias and id(reached) not in seen:
+                    seen.add(id(reached))
+                    reached = reached._target
+                return reached is member
+
+            for alias in [alias for alias in aliases_to_update if _reaches_member(alias)]:
                 with suppress(AliasResolutionError, CyclicAliasError):
                     if value.is_alias and not value.resolved:  # type: ignore[union-attr]
                         # An alias chain is never left partially resolved: aliases following
                         # the replacement get unresolved too when the replacement is an unresolved alias.
+                        alias._forget_target()
                         alias._target = None
                         alias.target_path = value.path
                     else:
